@@ -21,6 +21,8 @@ Trace == JsonDeserialize(IOEnv.TRACE_FILE)
 VARIABLES l, doneA, doneP, swapOn, bad
 tvars == <<pd, s, tab, l, doneA, doneP, swapOn, bad>>
 
+TraceTab(ped) == [trio |-> TrioTabFor(ped), allele |-> <<>>, bag |-> BagTabFor(ped),
+                  perms |-> PermsTabFor(ped), lw |-> <<>>]
 PedIndex(nm) == CHOOSE j \in 1..Len(Peds) : Peds[j].name = nm
 AllPositions(ped) == UNION {{<<i, k>> : k \in 1..ped.ploidy[i]} : i \in 1..ped.n}
 MaxPloidy(ped) == CHOOSE m \in {ped.ploidy[i] : i \in 1..ped.n} : \A i \in 1..ped.n : ped.ploidy[i] <= m
@@ -55,7 +57,7 @@ RecordVerdict(ped, e) ==
   IF doneA # AllPositions(ped) THEN "SweepComplete"
   ELSE IF swapOn /\ doneP # Pairs(ped) THEN "AllPairsSwapped"
   ELSE IF ~(Len(e.rows) = ped.n
-            /\ \A i \in 1..ped.n : e.rows[i] = Padded(Bag(s[i], ped.K), MaxPloidy(ped))) THEN "RecordIsSortedState"
+            /\ \A i \in 1..ped.n : e.rows[i] = Padded(BagT(s[i]), MaxPloidy(ped))) THEN "RecordIsSortedState"
   ELSE "ok"
 
 StartVerdict(e) ==
@@ -72,7 +74,7 @@ Verdict(e) ==
 
 TInit == /\ pd = 1
          /\ s = [i \in 1..Peds[1].n |-> [k \in 1..Peds[1].ploidy[i] |-> 0]]
-         /\ tab = [trio |-> TrioTabFor(Peds[1]), allele |-> <<>>]
+         /\ tab = TraceTab(Peds[1])
          /\ l = 1 /\ doneA = {} /\ doneP = {} /\ swapOn = TRUE /\ bad = 0
 
 TNext ==
@@ -84,7 +86,7 @@ TNext ==
          /\ IF e.op = "start" /\ v = "ok"
             THEN /\ pd' = PedIndex(e.ped)
                  /\ s' = e.s
-                 /\ tab' = IF pd' = pd THEN tab ELSE [trio |-> TrioTabFor(Peds[pd']), allele |-> <<>>]
+                 /\ tab' = IF pd' = pd THEN tab ELSE TraceTab(Peds[pd'])
                  /\ doneA' = {} /\ doneP' = {} /\ swapOn' = e.swap
             ELSE IF e.op = "allele" /\ v # "AlleleEventTyped"
             THEN /\ s' = SetCell(s, e.i, e.k, e.b)
